@@ -56,7 +56,7 @@ type Crash struct {
 }
 
 type Scenario struct {
-	Name      string `json:"name"` // dkg | second-config
+	Name      string `json:"name"` // dkg | second-config | excluded-later
 	PhaseLen  int64  `json:"phase_len"`
 	Fork      bool   `json:"fork"`
 	Byzantine bool   `json:"byzantine"` // party 2 deals a wrong evaluation to the keyper under test and accuses it
@@ -103,6 +103,8 @@ type trace struct {
 	outboxEnd []dkgrig.OutRow
 	issues    []string
 	groups    []group
+	winMsg    int64 // excluded-later: database message count / broadcasts of the keyper under test
+	winBc     int   // when keyper set 2 was announced (the window the quick tier sweeps starts there)
 }
 
 // one loop iteration of the keyper under test, as operations of Model/Outbox.v
@@ -236,6 +238,14 @@ func cacheVsLoad(tr *trace, e *env) {
 			tr.cacheDiff = append(tr.cacheDiff, fmt.Sprintf("eon %d: %s", eon, d))
 		}
 	}
+}
+
+// thrOf is the threshold of keyper set 1 (the set the keyper under test is a member of).
+func thrOf(s Scenario) uint64 {
+	if s.Name == "excluded-later" {
+		return 3
+	}
+	return 2
 }
 
 func arm(rig *dkgrig.Rig, c Crash) {
@@ -446,18 +456,41 @@ func execute(c Case, e *env) (*trace, error) {
 		evalSent               bool
 	}
 	bz := map[uint64]*byzEon{}
+	// excluded-later: keyper set 1 = {0,1,2} with threshold 3; party 2 withholds in the first eon of
+	// set 1 and everybody votes "failed", so shuttermint starts a new eon for set 1; while that key
+	// generation runs, keyper set 2 = {1,2}, which excludes the keyper under test, is accepted.
+	// From then on the newest stored config is one the keyper is not in while it still takes part
+	// in the key generation of the older one: a reloaded cache must say what the running one says.
+	excl := c.S.Name == "excluded-later"
+	thr1 := thrOf(c.S)
 	byzAct := func(open int64) {
 		if open == 3 {
 			rig.SubmitAs(2, shmsg.NewCheckIn(rig.Parties[2].ValKey, &rig.Parties[2].Cfg.GetEncryptionKey().PublicKey))
 		}
+		firstOf1 := uint64(0)
 		for _, ei := range rig.Eons() {
+			if ei.CfgIdx == 1 && (firstOf1 == 0 || ei.Eon < firstOf1) {
+				firstOf1 = ei.Eon
+			}
+		}
+		for _, ei := range rig.Eons() {
+			if excl && ei.CfgIdx != 1 {
+				continue
+			}
 			st := bz[ei.Eon]
 			if st == nil {
-				p, _ := shcrypto.RandomPolynomial(rand.Reader, 1)
+				p, _ := shcrypto.RandomPolynomial(rand.Reader, thr1-1)
 				st = &byzEon{poly: p}
 				bz[ei.Eon] = st
 			}
 			S := ei.Start
+			if excl && ei.Eon == firstOf1 {
+				if !st.voted && open == S+3*L+3 {
+					st.voted = true
+					rig.SubmitAs(2, shmsg.NewDKGResult(ei.Eon, false))
+				}
+				continue
+			}
 			if !st.dealt && open == S+2 {
 				st.dealt = true
 				rig.SubmitAs(2, shmsg.NewPolyCommitment(ei.Eon, st.poly.Gammas()))
@@ -509,10 +542,37 @@ func execute(c Case, e *env) (*trace, error) {
 	}
 
 	maxRounds := 30 + int(4*L)
+	if excl {
+		maxRounds = 36 + int(8*L)
+	}
+	set2Round := -1
 	for round := 0; round < maxRounds; round++ {
 		if round == 7 {
-			if err := rig.AddKeyperSet(1, 40, []int{0, 1, 2}, 2); err != nil {
+			if err := rig.AddKeyperSet(1, 40, []int{0, 1, 2}, int(thr1)); err != nil {
 				return nil, err
+			}
+		}
+		if excl {
+			// set 2 is announced once shuttermint has restarted the key generation of set 1 (it
+			// restarts only the newest eon, so the other order cannot occur), and is accepted while
+			// the restarted key generation, in which the keyper under test takes part, is running
+			n1 := 0
+			for _, ei := range rig.Eons() {
+				if ei.CfgIdx == 1 {
+					n1++
+				}
+			}
+			if n1 >= 2 && set2Round < 0 {
+				set2Round = round
+				tr.winMsg = rig.Parties[kut].Srv.MsgCount()
+				tr.winBc = rig.Chain.PerName[rig.Parties[kut].Name]
+				if err := rig.AddKeyperSet(2, 900, []int{1, 2}, 2); err != nil {
+					return nil, err
+				}
+			}
+			if set2Round >= 0 && round == set2Round+2 {
+				// the third vote set 1's threshold asks for
+				rig.SubmitAs(2, shmsg.NewBatchConfig(900, []common.Address{rig.Parties[1].Addr, rig.Parties[2].Addr}, 2, 2))
 			}
 		}
 		if c.S.Name == "second-config" && round == 7+10 {
@@ -658,7 +718,7 @@ func msgCoq(lb *dkgrig.Labeller, raw []byte) string {
 
 func renderCase(id uint64, tr *trace) string {
 	rig := tr.rig
-	lb := dkgrig.NewLabeller(rig, []int{0, 1, 2}, 2)
+	lb := dkgrig.NewLabeller(rig, []int{0, 1, 2}, int(thrOf(tr.c.S)))
 	lb.CollectCommits()
 	polys := map[uint64]string{}
 	note := func(eon uint64, p *puredkg.PureDKG) {
@@ -910,7 +970,7 @@ func oracle(tr, twin *trace) verdict {
 					continue
 				}
 				val, ok := rig.DecryptEval(p, pe.EncryptedEvals[k])
-				if !ok || g == nil || !shcrypto.VerifyPolyEval(p, val, g, 2) {
+				if !ok || g == nil || !shcrypto.VerifyPolyEval(p, val, g, thrOf(tr.c.S)) {
 					add("C08:eval-inconsistent-with-commitment", fmt.Sprintf("the evaluation the keyper sent to party %d for eon %d does not match the commitment it broadcast", p, pe.Eon), nil, nil)
 				}
 			}
@@ -922,7 +982,7 @@ func oracle(tr, twin *trace) verdict {
 				if p < 0 || k >= len(ap.PolyEvals) {
 					continue
 				}
-				if g == nil || !shcrypto.VerifyPolyEval(p, new(big.Int).SetBytes(ap.PolyEvals[k]), g, 2) {
+				if g == nil || !shcrypto.VerifyPolyEval(p, new(big.Int).SetBytes(ap.PolyEvals[k]), g, thrOf(tr.c.S)) {
 					add("C08:apology-inconsistent-with-commitment", fmt.Sprintf("the apology value for party %d, eon %d does not match the commitment", p, ap.Eon), nil, nil)
 				}
 			}
@@ -1181,13 +1241,14 @@ func main() {
 	run := vh.Start("Verif.Corr.C08", 12)
 	run.SetPreamble("From Verif Require Import Model.DKGPure Model.DKGDriver Model.Outbox Corr.C07 Corr.C08.\nOpen Scope N_scope.")
 	defer run.Finish()
-	run.Rule = "a complete DKG run of three keypers (one Byzantine party that makes the keyper under test accuse, be accused and apologise) on real keyper stacks, four schedules (plain, fork, second config, split: every transaction of the other honest keyper in a block of its own, so that blocks carry a single PolyEval / Accusation / Apology); after every loop iteration of the keyper under test its cache is compared with a fresh load of a copy of its database; per case one or two crash points of the keyper under test: before database message k, after the commit carried by message k was applied, before / after its b-th broadcast reached shuttermint; quick: every database message next to a begin/commit, every 9th other message, every broadcast; thorough: every database message, every broadcast and 2000 sampled pairs; non-trivial = the crash happened; distinct by the JSON rendering of the case"
+	run.Rule = "a complete DKG run of three keypers (one Byzantine party that makes the keyper under test accuse, be accused and apologise) on real keyper stacks, five schedules (plain, fork, second config, excluded-later: a restarted key generation of a set with the keyper under test during which a newer set without it is accepted, split: every transaction of the other honest keyper in a block of its own, so that blocks carry a single PolyEval / Accusation / Apology); after every loop iteration of the keyper under test its cache is compared with a fresh load of a copy of its database; per case one or two crash points of the keyper under test: before database message k, after the commit carried by message k was applied, before / after its b-th broadcast reached shuttermint; quick: every database message next to a begin/commit, every 9th other message, every broadcast; thorough: every database message, every broadcast and 2000 sampled pairs; non-trivial = the crash happened; distinct by the JSON rendering of the case"
 
 	scenarios := []Scenario{
 		{Name: "dkg", PhaseLen: 7, Byzantine: true, SchedSeed: 11},
 		{Name: "dkg", PhaseLen: 7, Byzantine: false, Fork: true, SchedSeed: 12},
 		{Name: "second-config", PhaseLen: 7, Byzantine: true, SchedSeed: 13},
 		{Name: "dkg", PhaseLen: 9, Byzantine: true, Split: true, SchedSeed: 14},
+		{Name: "excluded-later", PhaseLen: 7, SchedSeed: 15},
 	}
 	var cases []Case
 	if run.Replay != "" {
@@ -1211,6 +1272,17 @@ func main() {
 			return
 		}
 		twins[scenarioKey(r.c.S)] = r.tr
+		if r.c.S.Name == "excluded-later" {
+			// the schedule must contain its window: an eon of set 1 restarted, set 2 (without the
+			// keyper under test) stored while it runs, and the keyper took part in it successfully
+			cfg1 := strings.Count(r.tr.tables["eons"], "cfg=1")
+			okRows := strings.Count(r.tr.tables["dkg_result"], "success=true")
+			if cfg1 < 2 || okRows < 1 || !strings.Contains(r.tr.tables["tendermint_batch_config"], "2 keypers=") {
+				run.Violate(vh.Violation{Key: "C08:rig-failure", What: "the excluded-later schedule lost its window (a restarted set-1 key generation in which the keyper under test takes part successfully, set 2 without it accepted meanwhile)", Case: r.c,
+					Observed: []string{r.tr.tables["eons"], r.tr.tables["dkg_result"], r.tr.tables["tendermint_batch_config"]}})
+				return
+			}
+		}
 		for _, v := range r.v.viol {
 			run.Violate(v)
 		}
@@ -1245,6 +1317,16 @@ func main() {
 				ev = every * 3
 			}
 			pts := crashPoints(tw, ev, run.RNG)
+			if s.Name == "excluded-later" && !run.Thorough {
+				// quick tier: the crash points after keyper set 2 was announced
+				var w []Crash
+				for _, p := range pts {
+					if (strings.HasPrefix(p.Kind, "db") && p.At >= tw.winMsg) || (strings.HasPrefix(p.Kind, "bc") && p.At > int64(tw.winBc)) {
+						w = append(w, p)
+					}
+				}
+				pts = w
+			}
 			for _, p := range pts {
 				cases = append(cases, Case{S: s, Crashes: []Crash{p}})
 			}
